@@ -224,6 +224,29 @@ def op_cli_diff_fmt(t):
     return "%s ; %s" % (out, "FMTOK" if got == want else "FMTBAD %s" % enc(want))
 
 
-for name, fn in [("cli", op_cli), ("cli_shift", op_cli_shift), ("cli_diff", op_cli_diff), ("cli_rec", op_cli_rec),
+def op_cli_pf(t):
+    """cli_pf md utc fmt text noffsets off... : CLI output with --parse-format=fmt ; the library's own computation
+    (strptime with that format, to UTC in utc mode, the offsets added, strftime with the same format)"""
+    md = t.next()
+    utc = t.z()
+    fmt = dec(t.next())
+    text = dec(t.next())
+    n = t.z()
+    offs = [dec(t.next()) for _ in range(n)]
+    argv = ["--calendar=" + MODEFLAG[md]] + (["--utc"] if utc else []) + ["--parse-format=" + fmt, text] + \
+        ["--offset=" + o for o in offs]
+    out = run_cli(argv)
+    impl.set_mode(md)
+
+    def compute():
+        par = parsers.TimePointParser(assumed_time_zone=(0, 0) if utc else None)
+        p = with_fake_time(0, 0, 0, 0, lambda: par.strptime(text, fmt))
+        if utc:
+            p = p.to_utc()
+        return _lib_shift(p, offs).strftime(fmt)
+    return "%s ; %s" % (out, lib(compute))
+
+
+for name, fn in [("cli", op_cli), ("cli_shift", op_cli_shift), ("cli_pf", op_cli_pf), ("cli_diff", op_cli_diff), ("cli_rec", op_cli_rec),
                  ("cli_diff_off", op_cli_diff_off), ("cli_diff_fmt", op_cli_diff_fmt)]:
     impl.register(name, fn)
